@@ -234,7 +234,7 @@ fn permutations(n: usize, cap: usize, rng: &mut Rng) -> Vec<Vec<usize>> {
 }
 
 async fn new_world(name: &str, n: usize, k: u64) -> Gen {
-    let cfg = HistoryCfg { n_signers: n, k, m: 100, events: 0, with_csd: false, restarts: false, jumps: false, sparse_regs: false };
+    let cfg = HistoryCfg { n_signers: n, k, m: 100, events: 0, with_csd: false, restarts: false, jumps: false, sparse_regs: false, param_changes: false };
     let mut g = Gen::new(name, &cfg).await;
     g.w.tick().await;
     for p in 0..n {
